@@ -92,6 +92,8 @@ def strip_conditions(t: T) -> T:
         if isinstance(x, T):
             if x.op == "ite":
                 return T("ite", (const(True), go(x.a[1]), go(x.a[2])))
+            if x.op == "widen":
+                return x          # what a loop accumulates depends on its conditions: that is data dependence
             return T(x.op, go(x.a))
         if isinstance(x, tuple):
             return tuple(go(e) for e in x)
